@@ -264,6 +264,9 @@ where
             }
 
             if !self.take_byte_if(b'[') {
+                if default {
+                    return error!(ErrorKind::ExpectedToken('['), self.ptr);
+                }
                 break;
             }
 
